@@ -38,3 +38,13 @@ def run(ck: Checker):
                     meths.add(me)
         extra = meths - {'result', 'cancel', 'done', 'cancelled', 'exception'}
         ck.ob('C07-3', outer, (outer.node.lineno, 'operations on dequeued futures'), not extra and 'cancel' in meths, f'cleanup only cancels pending futures (operations used: {sorted(meths)})' if not extra else f'dequeued futures are also subjected to {sorted(extra)}')
+    # an abandoned Server.stream(): closing the generator must stop the feeder (which keeps admitting requests on behalf
+    # of the dropped stream) before draining, and the join of the feeder must not be able to block on a full hand-off
+    # queue -- otherwise the consuming thread hangs in close() and never gets to shut the server down
+    ck.rule('C07-5', 'an abandoned stream stops cleanly: the stop flag is set on every abnormal consumer exit before the drain, the feeder polls it, and the join of the feeder cannot wedge on a full queue (the C05-3/-4 obligations of fifo_stream / async_fifo_stream, on which Server.stream / AsyncServer.stream are built)', minimum=4)
+    from . import c05
+
+    for p in c05.pairs(ck):
+        if p.fin is None:
+            c05.check_stop_flag(ck, 'C07-5', p)
+            c05.check_join_safety(ck, 'C07-5', p)
